@@ -22,7 +22,7 @@ Definition EIO := 5.       (* the errno the scripted engine leaves behind for SS
 
 Definition tls0 : tlsst :=
   {| t_last := 0; t_isr := false; t_isw := false; t_supp := false; t_init := false; t_pend := -1; t_rem := 0;
-     t_server := false; t_started := false; t_more := false |}.
+     t_server := false; t_started := false; t_more := false; t_end := 0 |}.
 
 Definition get_tls (k : Z) : MX tlsst :=
   x <- get_ext ;; match aget k (x_tls x) with Some t => ret t | None => bad 140 end.
@@ -32,13 +32,22 @@ Definition upd_tls (k : Z) (f : tlsst -> tlsst) : MX unit := t <- get_tls k ;; p
 Definition is_tls (k : Z) : MX bool :=
   x <- get_ext ;; ret (match aget k (x_tls x) with Some _ => true | None => false end).
 
-(* UnderDeadline(fn, timeout): the remaining time is updated only when it is limited; an exception leaves it alone *)
+(* SetTimeout(timeout): a limited time-out fixes the deadline of the whole operation (one clock reading) *)
+Definition tls_set_timeout (k timeout : Z) : MX unit :=
+  upd_tls k (fun t => t <| t_rem := timeout |>) ;;;
+  if 0 <? timeout then now <- sys_now ;; upd_tls k (fun t => t <| t_end := now + timeout * NS_PER_MS |>) else ret tt.
+
+(* the DeadlineLimited of one step: built from the remaining time (a clock reading), but measured against the deadline of the
+   whole operation — rounding the remaining time to milliseconds after each step then does not add up (finding F15) *)
+Definition step_deadline (t : tlsst) (d : dl) : dl := {| d_now := d_now d; d_deadline := t_end t |}.
+
+(* UnderDeadline(fn, timeout, until): the remaining time is updated only when it is limited; an exception leaves it alone *)
 Definition under_deadline {A} (k : Z) (fn : Z -> MX A) : MX A :=
   t <- get_tls k ;;
   if t_rem t <=? 0 then fn (t_rem t)
   else d <- dl_new (t_rem t) ;;
        r <- fn (t_rem t) ;;
-       d' <- dl_tick d ;;
+       d' <- dl_tick (step_deadline t d) ;;
        upd_tls k (fun t => t <| t_rem := dl_remaining d' |>) ;;;
        ret r.
 
@@ -56,7 +65,7 @@ Definition bio_write (k size : Z) : MX Z :=
   else if t_rem t <? 0 then send_all (s_fd s) size
   else if t_rem t =? 0 then send_try (s_fd s) size
   else d <- dl_new (t_rem t) ;;
-       r <- send_some (s_fd s) size d ;;
+       r <- send_some (s_fd s) size (step_deadline t d) ;;
        let '(sent, d') := r in
        upd_tls k (fun t => t <| t_rem := if sent =? size then dl_remaining d' else 0 |>) ;;;
        ret sent.
@@ -175,7 +184,7 @@ Definition tls_write (k size : Z) : MX Z :=
 (* ---- the SocketImpl interface ------------------------------------------------------------------------------------ *)
 (* Receive(data, size, timeout) *)
 Definition tls_receive (k size timeout : Z) : MX (option Z) :=
-  upd_tls k (fun t => t <| t_rem := timeout |>) ;;;
+  tls_set_timeout k timeout ;;;
   n <- tls_read k size ;;
   if 0 <? n then ret (Some n)
   else if timeout <? 0 then stuck 44          (* assert(timeout.count() >= 0) *)
@@ -192,7 +201,7 @@ Definition tls_receive_now (k size : Z) : MX Z :=
 
 (* Send(data, size, timeout) *)
 Definition tls_send (k size timeout : Z) : MX Z :=
-  upd_tls k (fun t => t <| t_rem := timeout |>) ;;; tls_write k size.
+  tls_set_timeout k timeout ;;; tls_write k size.
 
 (* SendSome(data, size): the driver has deemed us writable *)
 Definition tls_send_some (k size : Z) : MX Z :=
@@ -243,7 +252,8 @@ Fixpoint shutdown_loop (fuel : nat) (k : Z) : MX unit :=
   end.
 
 Definition tls_shutdown (k : Z) : MX unit :=
-  upd_tls k (fun t => t <| t_isr := false |> <| t_isw := false |> <| t_rem := 1000 |>) ;;;
+  upd_tls k (fun t => t <| t_isr := false |> <| t_isw := false |>) ;;;
+  tls_set_timeout k 1000 ;;;
   r <- engine k 3 0 ;;
   if fst r <=? 0 then shutdown_loop STEPS_MAX k ;;; _ <- engine k 3 0 ;; ret tt else ret tt.
 
